@@ -312,8 +312,24 @@ func c09Hello(o c09HelloOpt) []byte {
 	return append([]byte{}, conn.buf.Bytes()...)
 }
 
-// c09HelloOf builds the hello of an authentication class.
+var c09HelloMu sync.Mutex
+var c09HelloCache = map[string][]byte{}
+
+// c09HelloOf returns a hello of an authentication class.  Every scenario has its own server state and every bubble
+// starts at the same instant, so a hello can serve many scenarios: a dozen per class are built, then reused.
 func c09HelloOf(class string, rng *kit.Rng) []byte {
+	key := fmt.Sprintf("%s/%d", class, rng.Intn(12))
+	c09HelloMu.Lock()
+	defer c09HelloMu.Unlock()
+	if h, ok := c09HelloCache[key]; ok {
+		return h
+	}
+	h := c09BuildHelloOf(class, rng)
+	c09HelloCache[key] = h
+	return h
+}
+
+func c09BuildHelloOf(class string, rng *kit.Rng) []byte {
 	o := c09HelloOpt{Browser: []string{"chrome", "firefox", "safari"}[rng.Intn(3)], UID: c09UIDok, Method: "echo", Enc: -1,
 		Name: []string{"www.bing.com", "random", "cdn.example.net"}[rng.Intn(3)]}
 	switch class {
@@ -929,7 +945,10 @@ func c09Run(t *testing.T, sc *c09Scenario) (res c09Result) {
 				if e.Outcome != snap.Outcome {
 					d = append(d, fmt.Sprintf("outcome %s, model %s", snap.Outcome, e.Outcome))
 				}
-				if snap.ExpNt != snap.Nt {
+				// a target that hangs up after its first read may have read just the replayed prefix or more: both are
+				// behaviours of the model (CopyUp and the target's close are concurrent); the prefix check above still applies
+				raced := sc.Script == "close" && e.Outcome == "redirect" && snap.Nt >= 1 && snap.Nt <= sent
+				if snap.ExpNt != snap.Nt && !raced {
 					d = append(d, fmt.Sprintf("target has %d bytes, model %d", snap.Nt, snap.ExpNt))
 				}
 				if snap.ExpNp >= 0 && snap.ExpNp != snap.Np {
@@ -1086,10 +1105,10 @@ func (p *c09Pool) record(sc *c09Scenario, r c09Result, family string, nontrivial
 	}
 	if len(r.Drift) > 0 {
 		res.Stat("drift", 1)
-		if p.drift.Add(1) <= 5 {
+		if n := p.drift.Add(1); n <= 5 {
 			res.Note("DRIFT %s [%s / %s / %s]: %s :: stream %s", family, sc.Label, sc.Script, sc.Down, strings.Join(r.Drift, " | "), c09Short(sc.StreamHex))
 			b, _ := json.Marshal(map[string]any{"scenario": sc, "family": family, "drift": r.Drift, "table": r.Snaps})
-			_ = os.WriteFile(fmt.Sprintf("%s/drift_%d.json", kit.OutDir(), p.drift.Load()), b, 0o644)
+			_ = os.WriteFile(fmt.Sprintf("%s/drift_%d.json", kit.OutDir(), n), b, 0o644)
 		}
 	}
 }
